@@ -49,12 +49,10 @@ def mc_jobs(ctx):
     q = ctx.quick()
     ok, bad = [], []
     if q:
-        ok += [kconsts("kafka", MaxFaults=2), kconsts("kafka", Blocking=True, TimerOn=False, live="LoopExits Unparks"),
-               kconsts("pubsub", MaxItems=3, MaxFaults=1), kconsts("pubsub", Blocking=True, BufSize=1, MaxItems=3, TimerOn=False, live="LoopExits Unparks"),
-               kconsts("cloudwatch"), kconsts("cloudwatch", Blocking=True, FlushMax=1),
-               kconsts("kafka", Protocol="repaired", cfg="BatchRoute_mcstrong.cfg", Blocking=True),
-               kconsts("pubsub", Protocol="repaired", cfg="BatchRoute_mcstrong.cfg", MaxItems=3),
-               kconsts("cloudwatch", Protocol="repaired", cfg="BatchRoute_mcstrong.cfg", FlushMax=1)]
+        ok += [kconsts("kafka", MaxFaults=2), kconsts("pubsub", MaxItems=3), kconsts("cloudwatch"),
+               kconsts("kafka", Blocking=True, TimerOn=False, live="LoopExits Unparks"),
+               kconsts("cloudwatch", Blocking=True, FlushMax=1),
+               kconsts("pubsub", Protocol="repaired", cfg="BatchRoute_mcstrong.cfg", Blocking=True, MaxItems=3)]
     else:
         for kind in KINDS:
             for blocking in (False, True):
@@ -88,11 +86,10 @@ def mc_jobs(ctx):
             ("drop_uncounted", K, {"ExitNothingLeftBehind", "NoSkip"}),
             ("threshold_off_by_one", K, {"BatchBound"}),
             ("give_up", K, {"RetrySame", "ExitNothingLeftBehind", "NoSkip"}),
-            ("no_drain", K, {"ExitNothingLeftBehind", "ExitGaugeZero"}),
-            ("drop_when_not_full", K, {"DropOnlyWhenFull"}),
-            ("bad_item_appended", K, {"UnknownItem"})]
+            ("drop_when_not_full", K, {"DropOnlyWhenFull"})]
     if not q:
-        devs += [("no_reset", C, {"NoResend", "BatchBound"}), ("no_reset", P, {"NoResend", "BatchBound"}),
+        devs += [("no_drain", K, {"ExitNothingLeftBehind", "ExitGaugeZero"}), ("bad_item_appended", K, {"UnknownItem"}),
+                 ("no_reset", C, {"NoResend", "BatchBound"}), ("no_reset", P, {"NoResend", "BatchBound"}),
                  ("no_final_flush", P, {"ExitNothingLeftBehind", "ExitAllTransmitted"}),
                  ("no_final_flush", C, {"ExitNothingLeftBehind", "ExitAllTransmitted"}),
                  ("threshold_off_by_one", C, {"BatchBound"}), ("threshold_off_by_one", P, {"BatchBound"}),
@@ -107,7 +104,9 @@ def mc_jobs(ctx):
                  ("give_up", dict(K, cfg="BatchRoute_mc.cfg"), {"NeverAbandoned", "RetrySame"})]
     # ... and two that only the liveness properties see
     L = kconsts("kafka", MaxItems=3, BufSize=1, Blocking=True, cfg="BatchRoute_live.cfg", live="")
-    devs += [("no_timer_flush", L, {"TimerFlushes"}), ("no_retry", L, {"LoopExits", "TimerFlushes", "Unparks"})]
+    devs += [("no_timer_flush", L, {"TimerFlushes"})]
+    if not q:
+        devs += [("no_retry", L, {"LoopExits", "TimerFlushes", "Unparks"})]
     for name, c, want in devs:
         bad.append(("dev/" + name + "/" + c["Kind"], dict(c, Mutant=name), want))
     return ok, bad
@@ -208,6 +207,12 @@ def family(rng, kind, fam):
         if not sc["blocking"]:
             sc["bufsize"] = n + 2
         sc["steps"] = d_steps(rng, sc, n, 0.1) + [dict(op="i")]
+        if kind == "pubsub":
+            # the byte threshold is met exactly by the m-th item (it must go into the next batch) / missed by one
+            # byte (it still fits)
+            sc["format"] = "plain"
+            m = rng.randint(2, min(n, 4))
+            sc["fmax"] = sum(st["sz"] for st in sc["steps"][:m]) + (1 if fam == "onemore" else 0)
         if rng.random() < 0.5:
             sc["steps"] += d_steps(rng, sc, rng.randint(1, per_batch(sc) + 1)) + [dict(op="i")]
     elif fam == "never":
@@ -244,11 +249,31 @@ def family(rng, kind, fam):
             while sc["faults"].count("fail") > 3:
                 sc["faults"][sc["faults"].index("fail")] = "ok"
     elif fam == "sdqueued":
-        # Shutdown while the endpoint holds a send back: a batch in flight, items pending and queued
+        # Shutdown while the endpoint holds a send back: a batch in flight, items pending and queued.  Without timer the
+        # numbers are exact: the threshold is reached, then the buffer filled (a blocking caller must not park: the
+        # driver would let the endpoint go on)
         sc = new_scen(rng, kind, fam, timer=rng.random() < 0.5)
         sc["bufsize"] = rng.choice([2, 3, 8])
-        n = per_batch(sc) + sc["bufsize"] - (rng.randint(0, 1) if sc["blocking"] else -rng.randint(0, 3))
-        sc["steps"] = d_steps(rng, sc, rng.randint(0, 3)) + [dict(op="hold")] + d_steps(rng, sc, max(1, n), 0.1)
+        if kind == "pubsub":
+            sc["format"] = "plain"
+        pre = d_steps(rng, sc, rng.randint(0, 3))
+        room = sc["bufsize"] - (rng.randint(0, 1) if sc["blocking"] else -rng.randint(0, 3))
+        if kind == "pubsub":
+            pend, burst, left = 0, [], None
+            for st in pre:
+                pend = st["sz"] if pend + st["sz"] >= sc["fmax"] else pend + st["sz"]
+            while left is None or left > 0:
+                st = d_steps(rng, sc, 1)[0]
+                burst.append(st)
+                if left is None:
+                    if pend + st["sz"] >= sc["fmax"]:
+                        left = room         # (the item that triggers the flush stays in the loop's hand)
+                    pend += st["sz"]
+                else:
+                    left -= 1
+        else:
+            burst = d_steps(rng, sc, sc["fmax"] - len(pre) % sc["fmax"] + room, 0.0)
+        sc["steps"] = pre + [dict(op="hold")] + burst
         sc["shutdown"] = "held"
         if rng.random() < 0.3:
             sc["faults"] = ["fail"]
@@ -533,13 +558,11 @@ def selftest_binding(ctx, events, verdicts):
         if b[0]["kind"] == "pubsub":
             return None
         ps = pieces(b)
+        alone = lambda i: not any(e["ev"] == "piece" and e["a"] == b[i]["a"] for k2, e in enumerate(b) if k2 != i)
         for i, j in zip(ps, ps[1:]):
-            if b[i]["st"] == "ok" and b[j]["st"] == "ok" and b[i]["a"] != b[j]["a"] and len(b[i]["ids"]) == b[0]["fmax"] \
-                    and not any(e["ev"] == "piece" and e["a"] == b[i]["a"] for k2, e in enumerate(b) if k2 != i):
+            if b[i]["st"] == "ok" and b[j]["st"] == "ok" and len(b[i]["ids"]) == b[0]["fmax"] and alone(i) and alone(j):
                 nb = copy.deepcopy(b)
-                nb[j]["a"] = nb[i]["a"]
-                nb = nb[:i + 1] + [nb[j]] + nb[i + 1:j] + nb[j + 1:]
-                return nb
+                return nb[:i] + nb[i + 1:j] + [dict(nb[i], a=nb[j]["a"]), nb[j]] + nb[j + 1:]
         return None
     cases.append(({"BatchBound"}, pick(fat_batch)))
 
@@ -656,7 +679,7 @@ def run(ctx):
         if nviol == 0 or all(re.match(r"(AllTransmitted kind=pubsub|(OutCounted|SpuriousError) kind=cloudwatch|\w+ kind=cloudwatch flushMaxSize=1)", v["sig"])
                              for v in ctx.violations):
             # (a route that breaks more than that may never get there; then the violations are the result)
-            need = dict(drops=5, failed_requests=5, callers_parked_on_full_buffer=1, shutdowns_with_a_send_held_back=3,
+            need = dict(drops=5, failed_requests=5, callers_parked_on_full_buffer=1, shutdowns_with_a_send_held_back=2,
                         shutdowns_with_items_queued=3, unparsable=5, kafka_attempts_in_several_requests=1,
                         kafka_attempts_failed_and_repeated=2, settles=5, idles=5)
             dead = {k: st[k] for k, n in need.items() if st[k] < n}
